@@ -633,6 +633,69 @@ Section PolicyFacts.
     exact (hdr_chain_shape chain _ _ Hc).
   Qed.
 
+  (* --- a new Received header is placed first --- *)
+  Lemma hdr_chain_app : forall c1 c2 h h',
+    hdr_chain_ok (c1 ++ c2) h h' <-> exists h1, hdr_chain_ok c1 h h1 /\ hdr_chain_ok c2 h1 h'.
+  Proof.
+    induction c1 as [|p c1 IH]; intros c2 h h'; cbn [app Policy.hdr_chain_ok].
+    - split.
+      + intros H. exists h. split; [reflexivity|exact H].
+      + intros (h1 & -> & H). exact H.
+    - split.
+      + intros (h0 & H0 & H). apply IH in H. destruct H as (h1 & H1 & H2).
+        exists h1. split; [exists h0; split; assumption|exact H2].
+      + intros (h1 & (h0 & H0 & H1) & H2). exists h0. split; [exact H0|]. apply IH. exists h1. split; assumption.
+  Qed.
+
+  Lemma last_received : forall chain : list policy,
+    existsb (is_received rule) chain = true ->
+    exists c1 c2, chain = c1 ++ PReceived :: c2 /\ existsb (is_received rule) c2 = false.
+  Proof.
+    induction chain as [|p chain IH]; cbn [existsb]; intros H; [discriminate|].
+    destruct (existsb (is_received rule) chain) eqn:EC.
+    - destruct (IH eq_refl) as (c1 & c2 & -> & H2). exists (p :: c1), c2. split; [reflexivity|exact H2].
+    - rewrite orb_false_r in H. destruct p; try discriminate. exists [], chain. split; [reflexivity|exact EC].
+  Qed.
+
+  Lemma no_received_count : forall chain : list policy,
+    existsb (is_received rule) chain = false -> n_received_of rule chain = 0%nat.
+  Proof.
+    unfold n_received_of. induction chain as [|p chain IH]; cbn [existsb filter]; intros H; [reflexivity|].
+    apply orb_false_iff in H. destruct H as [H1 H2]. rewrite H1. exact (IH H2).
+  Qed.
+
+  (* chain = c1 ++ PReceived :: c2, no AddReceivedHeader in c2: every written envelope starts with the field
+     that this LAST application put on top of the header list h1 as c1 had left it (h1: earlier Received
+     fields, the original fields whole and in order, what c1 appended); c2 only appends behind it *)
+  Lemma received_placed_first : forall chain n0 e x, fresh_input e n0 ->
+    In PReceived chain -> In x (results (run_policies chain n0 e)) ->
+    exists c1 c2 v h1 suf,
+      chain = c1 ++ PReceived :: c2 /\ existsb (is_received rule) c2 = false
+      /\ hdr x = (n_received, v) :: h1 ++ suf
+      /\ hdr_chain_ok c1 (hdr e) h1
+      /\ map fst suf = appended rule c2 (n_received :: map fst h1)
+      /\ exists pre1 suf1, h1 = pre1 ++ hdr e ++ suf1
+           /\ map fst pre1 = repeat n_received (n_received_of rule c1)
+           /\ map fst suf1 = appended rule c1 (map fst (hdr e)).
+  Proof.
+    intros chain n0 e x Hf Hin Hx.
+    assert (HE : existsb (is_received rule) chain = true).
+    { apply existsb_exists. exists PReceived. split; [exact Hin|reflexivity]. }
+    destruct (last_received chain HE) as (c1 & c2 & EC & H2).
+    destruct (run_ok chain n0 e Hf) as (_ & E & PE & _ & PO).
+    rewrite Forall_forall in PO. destruct (PO x (Permutation_in _ PE Hx)) as [_ Hc].
+    rewrite EC in Hc. apply hdr_chain_app in Hc. destruct Hc as (h1 & Hc1 & Hc2).
+    cbn [Policy.hdr_chain_ok Policy.hdr_ok] in Hc2. destruct Hc2 as (h2 & (v & ->) & Hc2).
+    destruct (hdr_chain_shape c2 _ _ Hc2) as (pre & suf & E2 & Ep & Es).
+    rewrite (no_received_count c2 H2) in Ep. cbn [repeat] in Ep. apply map_eq_nil in Ep. subst pre.
+    exists c1, c2, v, h1, suf. split; [exact EC|]. split; [exact H2|]. split; [exact E2|]. split; [exact Hc1|].
+    split; [exact Es|]. exact (hdr_chain_shape c1 _ _ Hc1).
+  Qed.
+
+  Lemma received_apply : forall n e,
+    apply PReceived n e = (set_hdr e ((n_received, recv_of e) :: hdr e), None, n).
+  Proof. reflexivity. Qed.
+
   (* Forward: first matching rule wins; no matching rule: unchanged *)
   Definition hits (ru : rule) (r : bytes) : bool :=
     let '(nr, ch) := subn ru r in negb (null nr) && (0 <? ch).
@@ -860,4 +923,15 @@ Example ex_empty_present :
   /\ let s := run_policies _ toy_subn toy_lower toy_val toy_val toy_val [PDate; PSplit; PMid; PReceived; PDate; PMid] 4 ex_env_empty in
      map (fun x => map fst (hdr x)) (results s)
      = repeat [n_received; [83]; [68;65;84;69]; [109;101;115;115;97;103;101;45;105;100]] 2.
+Proof. vm_compute. repeat split. Qed.
+
+(* a message with Return-Path above its Received field and a lower-case received further down; Received twice
+   in the chain: both new fields in front of everything, the original block untouched behind them *)
+Definition ex_env_trace : env :=
+  mkenv 0 [115] [[97;64;88]; [98;64;120]] 1
+        [([82;101;116;117;114;110;45;80;97;116;104], [60;62]); (n_received, [49]); ([83], [120]); ([114;101;99;101;105;118;101;100], [50])] 2 3 [104;105].
+Example ex_received_first :
+  let s := run_policies _ toy_subn toy_lower toy_val toy_val toy_val [PReceived; PSplit; PDate; PReceived; PMid] 4 ex_env_trace in
+  map (fun x => map fst (hdr x)) (results s)
+  = repeat [n_received; n_received; [82;101;116;117;114;110;45;80;97;116;104]; n_received; [83]; [114;101;99;101;105;118;101;100]; n_date; n_mid] 2.
 Proof. vm_compute. repeat split. Qed.
